@@ -25,10 +25,12 @@ fn run_check(id: &str, tier: Tier) -> i32 {
 		"C03" => checks::c03::run(tier, &reg),
 		"C04" => checks::c04::run(tier),
 		"C05" => checks::c05::run(tier, &reg),
+		"C06" => checks::c06::run(tier, &reg),
 		"C07" => checks::c07::run(tier, &reg),
 		"C13" => checks::c13::run(tier, &reg),
 		"C14" => checks::c14::run(tier, &reg),
 		"C15" => checks::c15::run(tier),
+		"C16" => checks::c16::run(tier, &reg),
 		"C18" => checks::c18::run(tier, &reg),
 		"C19" => checks::c19::run(tier, &reg),
 		_ => {
@@ -51,10 +53,12 @@ fn run_replay(id: &str, path: &str) -> i32 {
 		"C03" => checks::c03::replay(&reg, case),
 		"C04" => checks::c04::replay(case),
 		"C05" => checks::c05::replay(&reg, case),
+		"C06" => checks::c06::replay(&reg, case),
 		"C07" => checks::c07::replay(&reg, case),
 		"C13" => checks::c13::replay(&reg, case),
 		"C14" => checks::c14::replay(&reg, case),
 		"C15" => checks::c15::replay(case),
+		"C16" => checks::c16::replay(&reg, case),
 		"C18" => checks::c18::replay(&reg, case),
 		"C19" => checks::c19::replay(&reg, case),
 		_ => {
